@@ -346,6 +346,80 @@ def runProgram (lt : Rat) : List EditOp → List Track → List Track
 def trackOf (peaks : List (List Rat)) (t : List Node) : Track :=
   t.filterMap fun n => (peakAt peaks n).map fun c => ((n.1 : Int), c)
 
+/-! ### centroid refinement without bias correction: `refine_peak_based_on_moment` (the pixel walk with its clamps)
+    and `refine_tracks_centroid(..., bias_correction=False)` around it
+
+  The image is given by its scan lines (`cols[t] = image[:, t]`), `n` is the number of pixel rows. -/
+
+/-- a pixel of a scan line, zero outside (`convolve2d(…, "same")` pads with zeros) -/
+def pxAt (col : List Int) (i : Int) : Int := if i < 0 then 0 else col.getD i.toNat 0
+
+/-- `m0 = convolve2d(data, ones((2h+1, 1)), "same")[c, t]` -/
+def m0At (col : List Int) (h : Nat) (c : Int) : Int :=
+  ((List.range (2 * h + 1)).map fun (k : Nat) => pxAt col (c + ((k : Int) - (h : Int)))).sum
+
+/-- `convolve2d(data, dir_kernel, "same")[c, t] = Σ_d d · data[c + d, t]`, `d = −h … h` -/
+def m1At (col : List Int) (h : Nat) (c : Int) : Int :=
+  ((List.range (2 * h + 1)).map fun (k : Nat) => ((k : Int) - (h : Int)) * pxAt col (c + ((k : Int) - (h : Int)))).sum
+
+/-- `subpixel_offset[c, t] = m1 / (m0 + eps)` -/
+def offsetAt (eps : Rat) (col : List Int) (h : Nat) (c : Int) : Rat :=
+  (m1At col h c : Rat) / ((m0At col h c : Rat) + eps)
+
+/-- one point of one pass: `coordinates[out_of_bounds] += sign(offsets[out_of_bounds])` where `abs(offset) > 0.5`;
+    the flag says whether the point was moved -/
+def movePt (eps : Rat) (cols : List (List Int)) (h : Nat) (p : Int × Nat) : Int × Nat × Bool :=
+  let off := offsetAt eps (cols.getD p.2 []) h p.1
+  if off > 1/2 then (p.1 + 1, p.2, true) else if off < -(1/2) then (p.1 - 1, p.2, true) else (p.1, p.2, false)
+
+/-- the edge cases: `coordinates[coordinates < 0] = 0; coordinates[coordinates >= max] = max − 1` -/
+def clampPt (n : Int) (c : Int) : Int := if c < 0 then 0 else if c ≥ n then n - 1 else c
+
+/-- one pass over all points and the number the loop tests: `out_of_bounds.size − sum(low) − sum(high)` -/
+def refineIter (eps : Rat) (cols : List (List Int)) (h : Nat) (n : Int) (pts : List (Int × Nat)) :
+    List (Int × Nat) × Int :=
+  let moved := pts.map (movePt eps cols h)
+  let nMoved := (moved.filter fun m => m.2.2).length
+  let low := (moved.filter fun m => decide (m.1 < 0)).length
+  let high := (moved.filter fun m => decide (m.1 ≥ n)).length
+  (moved.map fun m => (clampPt n m.1, m.2.1), (nMoved : Int) - (low : Int) - (high : Int))
+
+/-- `for _ in range(max_iter): … if … == 0: break  else: raise RuntimeError` -/
+def refineLoop (eps : Rat) (cols : List (List Int)) (h : Nat) (n : Int) : Nat → List (Int × Nat) → Option (List (Int × Nat))
+  | 0, _ => none
+  | fuel + 1, pts =>
+    let r := refineIter eps cols h n pts
+    if r.2 = 0 then some r.1 else refineLoop eps cols h n fuel r.1
+
+/-- `refine_peak_based_on_moment(data, coordinates, time_points, half_kernel_size, bias_correction=False)`:
+    refined coordinate, time point and window sum `m0` of every point -/
+def refineMoment (eps : Rat) (cols : List (List Int)) (h : Nat) (n : Int) (pts : List (Int × Nat)) :
+    Except String (List (Rat × Nat × Int)) :=
+  if h < 1 then .error "ValueError"
+  else match refineLoop eps cols h n 100 pts with
+    | none => .error "RuntimeError"
+    | some ps => .ok (ps.map fun p =>
+        ((p.1 : Rat) + offsetAt eps (cols.getD p.2 []) h p.1, p.2, m0At (cols.getD p.2 []) h p.1))
+
+/-- `np.round` (halves to the even neighbour) -/
+def roundHalfEven (r : Rat) : Int :=
+  let f := r.floor
+  if r - (f : Rat) < 1/2 then f else if r - (f : Rat) > 1/2 then f + 1 else if f % 2 = 0 then f else f + 1
+
+/-- cut a flat list back into pieces of the given lengths (`coordinate_idx[track_ids == j]`) -/
+def regroup {β} : List Nat → List β → List (List β)
+  | [], _ => []
+  | k :: ks, l => l.take k :: regroup ks (l.drop k)
+
+/-- `refine_tracks_centroid(tracks, track_width, bias_correction=False)` for the tracks of one kymograph:
+    interpolate, round to pixels, one joint pixel walk over all points, cut back into tracks -/
+def refineTracks (eps : Rat) (cols : List (List Int)) (h : Nat) (n : Int) (g : List Track) : Except String (List Track) :=
+  let ig := g.map interpolate
+  let pts := ig.flatten.map fun p => (roundHalfEven p.2, p.1.toNat)
+  match refineMoment eps cols h n pts with
+  | .error e => .error e
+  | .ok ps => .ok (regroup (ig.map List.length) (ps.map fun q => ((q.2.1 : Int), q.1)))
+
 /-! ### protocol -/
 open Verif.Proto
 
@@ -402,7 +476,9 @@ def editOp? (s : String) : Option EditOp :=
   `c08.halfwidth width pixelSize`
   `c08.edit lineTime <step> [[idx]] [[coords]]`              the group after one editing step, or the error
   `c08.editprog lineTime <step|step|…> [[idx]] [[coords]]`   the group after the program (refused steps skipped)
-  `c08.trackof [[coords per frame]] [f:j,…;…]`               the tracks of a linker result as (idx, coordinate) -/
+  `c08.trackof [[coords per frame]] [f:j,…;…]`               the tracks of a linker result as (idx, coordinate)
+  `c08.refine eps h n [[scan lines]] [[idx]] [[coords]]`     `refine_tracks_centroid(bias_correction=False)`: the group, or the error
+  `c08.moment eps h n [[scan lines]] [c:t,…]`                 pixel walk: `[refined,…] [m0,…]` or the error -/
 def handle : List String → Option String
   | ["c08.link", w, vel, sigma, diff, cutoff, coords, amps] => do
     let w ← int? w
@@ -468,6 +544,25 @@ def handle : List String → Option String
       | [f, j] => do let f ← nat? f; let j ← nat? j; some (f, j)
       | _ => none) nodes
     some (showGroup (nodes.map (trackOf coords)))
+  | ["c08.refine", eps, h, n, cols, times, coords] => do
+    let eps ← rat? eps; let h ← nat? h; let n ← int? n
+    let cols ← listListOf? int? cols
+    let times ← listListOf? int? times; let coords ← listListOf? rat? coords
+    let g ← mkGroup times coords
+    if g.any (·.isEmpty) then some "ValueError"
+    else
+      match refineTracks eps cols h n g with
+      | .ok g' => some (showGroup g')
+      | .error e => some e
+  | ["c08.moment", eps, h, n, cols, pts] => do
+    let eps ← rat? eps; let h ← nat? h; let n ← int? n
+    let cols ← listListOf? int? cols
+    let pts ← listOf? (fun s => match s.splitOn ":" with
+      | [c, t] => do let c ← int? c; let t ← nat? t; some (c, t)
+      | _ => none) pts
+    match refineMoment eps cols h n pts with
+    | .ok ps => some (showRatList (ps.map (·.1)) ++ " " ++ showIntList (ps.map (·.2.2)))
+    | .error e => some e
   | _ => none
 
 end Verif.C08
